@@ -28,3 +28,61 @@ def finding_F4_prune(m):
         res[cache] = dict(sims.inputs_of("B"))
     at5 = (res[True].get(5), res[False].get(5))
     return at5[0] != at5[1] or at5[0] != [("A.e", 0)], f"consumer input at t=5: cache on {at5[0]}, cache off {at5[1]}, expected [('A.e', 0)]"
+
+
+def _f6_sim_class():
+    import mosaik_api_v3
+    meta = {"api_version": "3.0", "type": "hybrid",
+            "models": {"M": {"public": True, "params": [], "attrs": ["x", "i"], "trigger": ["i"], "non-persistent": ["x"]}}}
+
+    class F6Sim(mosaik_api_v3.Simulator):
+        def __init__(self):
+            super().__init__(meta)
+
+        def init(self, sid, time_resolution=1.0, **kw):
+            return self.meta
+
+        def create(self, num, model, **kw):
+            return [{"eid": f"e{i}", "type": model} for i in range(num)]
+
+        def step(self, time, inputs, max_advance):
+            self.t = time
+            return time + 1
+
+        def get_data(self, outputs):
+            return {"time": self.t}
+    return F6Sim
+
+
+
+def finding_F6_incomparable(m):
+    """an ACYCLIC scenario -- x outside a group, u, v, a inside it; u -> v, u -> x, x -> a, a -> v (weak) -- has two
+    trigger paths u ~> v whose accumulated delays have different cut-offs (one stays in the group, one leaves and
+    re-enters it): the closure compares them and TieredInterval.__lt__ asserts 'incomparable' (the partial order of
+    F11 / K_mixed).  run() dies with AssertionError before any step."""
+    import warnings
+    import mosaik
+    from loguru import logger
+    import types
+    mod = types.ModuleType("_f6_sims")
+    mod.F6Sim = _f6_sim_class()
+    sys.modules["_f6_sims"] = mod
+    logger.remove()
+    warnings.simplefilter("ignore")
+    w = mosaik.World({"D": {"python": "_f6_sims:F6Sim"}}, skip_greetings=True)
+    try:
+        x = w.start("D").M()
+        with w.group():
+            u, v, a = w.start("D").M(), w.start("D").M(), w.start("D").M()
+        w.connect(u, v, ("x", "i"))
+        w.connect(u, x, ("x", "i"))
+        w.connect(x, a, ("x", "i"))
+        w.connect(a, v, ("x", "i"), weak=True)
+        try:
+            w.run(until=3, print_progress=False)
+            return False, "the scenario ran to completion"
+        except AssertionError as e:
+            return True, f"run() of the acyclic scenario died with AssertionError({str(e)[:80]})"
+    finally:
+        if not w.loop.is_closed():
+            w.shutdown()
